@@ -33,6 +33,7 @@ class St:
     absorbed = 0       # number of tiny additive regularisers absorbed
     float_evals = 0    # concrete irrational evaluations done in floating point
     fork_div = False   # fork scalar division on a zero divisor (Python float semantics)
+    typed_casts = False   # (set by typed-input cases) astype towards an integer / real element type is a C cast of the symbolic elements
     pow_mode = "alg"   # 'alg' algebraic powers, 'uf' uninterpreted power functions
     pow_uf_for = set() # exponents (Fractions) that are always uninterpreted, whatever pow_mode says
     fresh = 0
@@ -59,6 +60,7 @@ class St:
         cls.absorb_eps = Fr(3, 2 * 10 ** 10)
         cls.snap_literals = False
         cls.conc_trig_float = False
+        cls.typed_casts = False
 
 
 def conc(x):
@@ -1024,8 +1026,23 @@ def cvar(name):
     return Sym(z3.Real(name + ".r"), z3.Real(name + ".i"))
 
 
+_ND_DTYPE = numpy.ndarray.dtype
+
+
+def raw_dtype(a):
+    """the storage dtype (object for symbolic arrays), whatever element type a typed symbolic array presents"""
+    return _ND_DTYPE.__get__(a) if isinstance(a, numpy.ndarray) else numpy.asarray(a).dtype
+
+
 class SA(numpy.ndarray):
     """object ndarray whose float casts / float32 views are the identity (REAL) or a cast UF (EUF)."""
+
+    @property
+    def dtype(self):
+        # a typed symbolic array (core.typed) presents the element type it stands for: code that allocates or casts
+        # "like the input" (astype(x.dtype), zeros(shape, dtype=x.dtype)) then does what it does for such an input
+        idt = getattr(self, "_idt", None)
+        return idt if idt is not None else _ND_DTYPE.__get__(self)
 
     def __array_finalize__(self, obj):
         # single-precision tag (only set by checks that model float32 inputs) follows views and copies
@@ -1049,8 +1066,12 @@ class SA(numpy.ndarray):
         """what storing v into an integer / boolean array keeps of it (C cast: truncation toward zero; non-zero -> True)"""
         idt = self._idt
         v = Sym.lift(v)
+        if idt.kind == "c":
+            return v
         if not v.isreal():
-            v = v.real
+            v = v.real          # ComplexWarning: the imaginary part is discarded
+        if idt.kind == "f":
+            return v
         if idt.kind == "b":
             if conc(v.re):
                 return Sym(1 if v.re != 0 else 0)
@@ -1085,6 +1106,12 @@ class SA(numpy.ndarray):
 
     def astype(self, dtype, *a, **k):
         dt = _dt(dtype)
+        if dt is not None and dt.kind == "f" and getattr(self, "_idt", None) is None and St.typed_casts and \
+                any(not Sym.lift(e).isreal() for e in numpy.ndarray.ravel(numpy.asarray(self))):
+            out = typed(numpy.empty(self.shape, dtype=object), dt)
+            for i in numpy.ndindex(*self.shape):
+                out[i] = numpy.ndarray.__getitem__(self, i)      # complex -> real cast drops the imaginary part
+            return out
         if dt is not None and dt.kind in "fc" and dt.itemsize >= 8 and k.get("copy", True) is False and St.mode == "REAL":
             return self          # symbolic arrays stand for float64/complex128: astype(copy=False) aliases
         if dt is not None and dt.kind in "fc":
@@ -1096,11 +1123,18 @@ class SA(numpy.ndarray):
                     out[i] = e if e.isconc() else Sym(f(z(e.re)))
                 return out.view(SA)
             return self.copy()
-        if dt is not None and dt.kind in "iu":
-            out = numpy.empty(self.shape, dtype=dt)
+        if dt is not None and dt.kind in "iub":
+            elems = [Sym.lift(numpy.ndarray.__getitem__(self, i)) for i in numpy.ndindex(*self.shape)]
+            if all(e.isconc() for e in elems) or dt.kind != "b" and getattr(self, "_idt", None) is None and St.explorer is not None and not St.typed_casts:
+                out = numpy.empty(self.shape, dtype=dt)
+                for i in numpy.ndindex(*self.shape):
+                    out[i] = sym_int(numpy.ndarray.__getitem__(self, i))
+                return out
+            out = typed(numpy.empty(self.shape, dtype=object), dt)
             for i in numpy.ndindex(*self.shape):
-                out[i] = sym_int(numpy.ndarray.__getitem__(self, i))
+                out[i] = numpy.ndarray.__getitem__(self, i)      # __setitem__ applies the C cast
             return out
+
         return numpy.ndarray.astype(self, dtype, *a, **k)
 
     # a tiny regulariser added to an array with symbolic elements is absorbed for *all* elements
@@ -1167,7 +1201,7 @@ def obj(a):
     if isinstance(a, SA):
         return a
     arr = numpy.asarray(a)
-    if arr.dtype != object:
+    if raw_dtype(arr) != object:
         out = numpy.empty(arr.shape, dtype=object)
         for i in numpy.ndindex(*arr.shape):
             out[i] = Sym.lift(arr[i])
